@@ -35,8 +35,8 @@ ASSUMPTIONS = [
     "formats without an exact independent checker are not judged; schemas passed to the generator that still contain $ref are not judged at value level",
     "non-body parts of a case are read through string coercion (some typed reading of the string must be acceptable)",
 ]
-MIN_EVALUATIONS = {"quick": 20000, "thorough": 150000}
-MIN_NONTRIVIAL = {"quick": 2000, "thorough": 6000}
+MIN_EVALUATIONS = {"quick": 12000, "thorough": 150000}
+MIN_NONTRIVIAL = {"quick": 1200, "thorough": 6000}
 REACH_FLOORS = {"values_positive": 3000, "values_negative": 5000, "cases_seen": 3000, "cases_negative": 1500}
 SHARD_TIMEOUT = {"quick": 900, "thorough": 5400}
 
